@@ -931,6 +931,62 @@ def run_builtin_stream(h, res, tb):
     return out
 
 
+def run_session_stream(tb, h, res, rng, tier):
+    """SESSIONS (round 7, after seed C17-11: a per-thread cache of the last resolved units is left inconsistent by a
+    conversion that FAILS on its target): sequences of conversions in ONE harness process / thread —
+    ok(A, B); rejected(C, bad target) or rejected(bad source, C) or category mismatch; ok(A, B) again; ok(A, B2) —
+    law: a conversion's result does not depend on what was converted (or rejected) before it."""
+    cats = {}
+    for u in tb.units:
+        if u["ids"]:
+            cats.setdefault(u["cat"], []).append(u)
+    name = lambda u: rng.choice(u["ids"]).decode("utf-8")
+    big = [us for us in cats.values() if len(us) >= 3]
+    nseq = 120 if tier == "quick" else 3000
+    v = "%016x" % f2b(5.0)
+    lines, seqs = [], []
+    for k in range(nseq):
+        us = rng.choice(big)
+        ua, ub, ub2 = rng.choice(us), rng.choice(us), rng.choice(us)
+        uc = rng.choice(rng.choice(list(cats.values())))
+        a, b, b2, cc = name(ua), name(ub), name(ub2), name(uc)
+        kind = k % 4
+        if kind == 0:
+            mid = (cc, rng.choice(sorted(unknown_variants(rng, b))))          # unknown target
+        elif kind == 1:
+            mid = (rng.choice(sorted(unknown_variants(rng, a))), cc)          # unknown source
+        elif kind == 2:
+            other = rng.choice([x for x in cats.values() if x is not us and x[0]["cat"] != uc["cat"]] or [us])
+            mid = (cc, name(rng.choice(other)))                               # category mismatch (or a success)
+        else:
+            mid = (cc, cc.lower() + " s")                                     # unknown target, source spelled like a unit
+        seq = [(a, b), mid, (a, b), (a, b2), mid, (a, b2)]
+        seqs.append((len(lines), seq))
+        for x, y in seq:
+            lines.append("%s\t%s\t%s" % (c.hexs(x), c.hexs(y), v))
+    outs = c.harness_lines_resilient(h, "units", lines, ["--builtin"])
+    # every line alone, in a different order (fresh cache state): the reference
+    uniq = sorted(set(lines), reverse=True)
+    ref = dict(zip(uniq, c.harness_lines_resilient(h, "units", uniq, ["--builtin"])))
+    viol = 0
+    for start, seq in seqs:
+        got = outs[start:start + len(seq)]
+        for j, (pair, o) in enumerate(zip(seq, got)):
+            r = ref[lines[start + j]]
+            if o != r and not (o.startswith("ERR") and r.startswith("ERR")):
+                viol += 1
+                if viol <= 3:
+                    res.violation("a conversion's result depends on the conversions evaluated (or rejected) before it in the same process",
+                                  {"kind": "units-law", "law": "history independence of convert (SESSIONS)",
+                                   "detail": {"sequence": [list(p) for p in seq[:j + 1]], "value": 5.0,
+                                              "position": j, "in_sequence": o, "alone": r},
+                                   "calls": [[x, y, v, "5.0"] for x, y in seq[:j + 1]], "observed": got[:j + 1]})
+                break
+    res.streams["SESSIONS"] = {"sequences": len(seqs), "conversions": len(lines), "distinct": len(uniq),
+                               "rejected_in_sequence": sum(1 for o in outs if not o.startswith("OK")),
+                               "violations": viol}
+
+
 def check_bound_tables(res):
     """the constants of the proved temperature bounds, printed by Coq (UnitsFloat2.v temp_tables / tcomp_tables), must be
     the tolerances this check uses (TEMP_AB / TCOMP_AB)"""
@@ -1063,6 +1119,7 @@ def main(argv):
         res.tie_broken("correspondence C17/BUILTIN: model and implementation disagree on %d of %d argument tuples"
                        % (len(bs["mism"]), bs["cases"]), "first: %s model=%s impl=%s" % ([x[0] for x in cs], m, o))
 
+    run_session_stream(tb, h, res, c.Rng(seed + 1711), tier)
     tables_ok = check_bound_tables(res)
     # ---- the laws on the implementation alone (always run)
     L = law_search(tb, impl, res, rng, tier, known, rs["pool"])
